@@ -30,7 +30,8 @@ def scalar_fun(kind, w=1.0):
 
 
 class FrameMotion:
-    """r(t) = r0 + amp sin(w t),  A(t) = A0 R(axis, alpha sin(w t)) with analytic derivatives."""
+    """r(t) = r0 + amp (sin(w t + ph) - sin(ph)),  A(t) = A0 R(axis, alpha (sin(w t + ph) - sin(ph))) with analytic
+    derivatives (ph = 0 by default; ph = pi/2 starts from rest)."""
 
     def __init__(self, spec):
         self.r0 = np.array(spec["r"], dtype=float)
@@ -38,35 +39,43 @@ class FrameMotion:
         m = spec.get("motion") or {}
         self.amp = np.array(m.get("amp", [0, 0, 0]), dtype=float)
         self.w = float(m.get("w", 0.0))
+        self.ph = float(m.get("phase", 0.0))
         ax = np.array(m.get("axis", [0, 0, 1]), dtype=float)
         self.axis = ax / np.linalg.norm(ax)
         self.alpha = float(m.get("alpha", 0.0))
         self.S = rot.skew(self.axis)
         self.moving = bool(m) and (np.any(self.amp != 0) or self.alpha != 0)
 
+    def _s(self, t):
+        return np.sin(self.w * t + self.ph) - np.sin(self.ph)
+
+    def _s_t(self, t):
+        return self.w * np.cos(self.w * t + self.ph)
+
+    def _s_tt(self, t):
+        return -self.w**2 * np.sin(self.w * t + self.ph)
+
     def r(self, t):
-        return self.r0 + self.amp * np.sin(self.w * t)
+        return self.r0 + self.amp * self._s(t)
 
     def r_t(self, t):
-        return self.amp * self.w * np.cos(self.w * t)
+        return self.amp * self._s_t(t)
 
     def r_tt(self, t):
-        return -self.amp * self.w**2 * np.sin(self.w * t)
+        return self.amp * self._s_tt(t)
 
     def _R(self, t):
-        th = self.alpha * np.sin(self.w * t)
-        return rot.quat_to_mat(rot.quat_axis_angle(self.axis, th))
+        return rot.quat_to_mat(rot.quat_axis_angle(self.axis, self.alpha * self._s(t)))
 
     def A(self, t):
         return self.A0 @ self._R(t)
 
     def A_t(self, t):
-        th_t = self.alpha * self.w * np.cos(self.w * t)
-        return self.A0 @ self._R(t) @ self.S * th_t
+        return self.A0 @ self._R(t) @ self.S * (self.alpha * self._s_t(t))
 
     def A_tt(self, t):
-        th_t = self.alpha * self.w * np.cos(self.w * t)
-        th_tt = -self.alpha * self.w**2 * np.sin(self.w * t)
+        th_t = self.alpha * self._s_t(t)
+        th_tt = self.alpha * self._s_tt(t)
         R = self._R(t)
         return self.A0 @ (R @ self.S @ self.S * th_t**2 + R @ self.S * th_tt)
 
@@ -357,7 +366,14 @@ def build(scene, state=None, assemble=True, options=None, names=None, extra=None
     for k, co in enumerate(scene.get("contacts", [])):
         name = nm("contact", k, f"c{k}")
         if co["type"] == "s2p":
-            pf = Frame(r_OP=np.array(co["plane"]["r"], dtype=float), A_IB=rot.quat_to_mat(co["plane"]["p"]), name=nm("plane", k, f"plane{k}"))
+            pm = FrameMotion(co["plane"])
+            if pm.moving:
+                # the plane is moved explicitly in time (a shaking / tilting floor)
+                kw = dict(r_OP=pm.r, r_OP_t=pm.r_t, r_OP_tt=pm.r_tt) if np.any(pm.amp != 0) else dict(r_OP=pm.r0)
+                kw.update(dict(A_IB=pm.A, A_IB_t=pm.A_t, A_IB_tt=pm.A_tt) if pm.alpha != 0 else dict(A_IB=pm.A0))
+                pf = Frame(name=nm("plane", k, f"plane{k}"), **kw)
+            else:
+                pf = Frame(r_OP=np.array(co["plane"]["r"], dtype=float), A_IB=rot.quat_to_mat(co["plane"]["p"]), name=nm("plane", k, f"plane{k}"))
             B.plane_frames.append(pf)
             add(pf)
             c = Sphere2Plane(
